@@ -37,6 +37,7 @@ import (
 	"runtime"
 	"sort"
 	"strings"
+	"sync"
 	"time"
 
 	c "github.com/buzzfeed/sso/internal/zz_verif/common"
@@ -739,6 +740,10 @@ func coqCase(w *world, cs caseSpec, o observation) string {
 			due = fmt.Sprintf("(ValidateDue %s)", c.Strs(cs.ProfileGroups))
 		case "grace-refresh", "grace-validate":
 			due = "GraceFallback"
+		case "joined-refresh":
+			due = fmt.Sprintf("(JoinedRefresh %s %s)", c.Str(cs.NewToken), c.Strs(cs.ProfileGroups))
+		case "joined-validate":
+			due = fmt.Sprintf("(JoinedValidate %s)", c.Strs(cs.ProfileGroups))
 		}
 	}
 	saved := "None"
@@ -1279,6 +1284,116 @@ func corpusLate(ws []*world) []caseSpec {
 	return out
 }
 
+// runSameSession overlaps two requests of ONE session (same sealed cookie) while a refresh or a
+// revalidation is due: the fake authenticator holds its answer to the first back-channel call until
+// the second request has arrived, then answers. Which request led the provider call is known (the first);
+// whether the second JOINED that call or made its own is read off the authenticator's call log (one
+// call to the due endpoint = joined). Both requests are judged against the session.
+func runSameSession(ws []*world, backend *c.Backend, wi int, base caseSpec, i int, r *c.Rng) []c.Case {
+	w := ws[wi]
+	if w.BootErr != "" {
+		return []c.Case{bootFailed(w, base)}
+	}
+	base.World = wi
+	cs1, cs2 := base, base
+	cs1.Path, cs2.Path = fmt.Sprintf("/private/same-1-%d", i), fmt.Sprintf("/private/same-2-%d", i)
+	cs1.Overlap, cs2.Overlap = "first of two requests of one session; authenticator answer held", "second request of the same session, sent while the first waited for the authenticator"
+	head1, _, sealed, _ := prepare(w, cs1, r)
+	head2 := strings.Replace(head1, cs1.Path, cs2.Path, 1)
+	dueEp := "refresh"
+	if base.Due == "validate" {
+		dueEp = "validate"
+	}
+	entered, release := make(chan struct{}, 1), make(chan struct{})
+	var mu sync.Mutex
+	first := true
+	w.pw.Auth.SetFn(func(ep string, _ *http.Request) *c.Answer {
+		if ep == dueEp {
+			mu.Lock()
+			f := first
+			first = false
+			mu.Unlock()
+			if f {
+				entered <- struct{}{}
+				<-release
+			}
+		}
+		return nil
+	})
+	backend.Take()
+	addr := strings.TrimPrefix(w.srv.URL, "http://")
+	read := func(conn net.Conn) (int, []*http.Cookie) {
+		if resp, err := http.ReadResponse(bufio.NewReader(conn), &http.Request{Method: "GET"}); err == nil {
+			io.Copy(ioutil.Discard, resp.Body)
+			resp.Body.Close()
+			return resp.StatusCode, resp.Cookies()
+		}
+		return 0, nil
+	}
+	conn1, err := net.Dial("tcp", addr)
+	c.Must(err)
+	defer conn1.Close()
+	conn1.SetDeadline(time.Now().Add(30 * time.Second))
+	io.WriteString(conn1, head1)
+	select {
+	case <-entered:
+	case <-time.After(5 * time.Second): // the tree under test asked the authenticator nothing: judged below as it comes
+	}
+	conn2, err := net.Dial("tcp", addr)
+	c.Must(err)
+	defer conn2.Close()
+	conn2.SetDeadline(time.Now().Add(30 * time.Second))
+	io.WriteString(conn2, head2)
+	time.Sleep(80 * time.Millisecond)
+	close(release)
+	st1, ck1 := read(conn1)
+	st2, ck2 := read(conn2)
+	n := 0
+	for _, ep := range w.pw.Auth.TakeCalls() {
+		if ep == dueEp {
+			n++
+		}
+	}
+	w.pw.Auth.SetFn(nil)
+	if n == 1 {
+		cs2.Due = "joined-" + base.Due
+	}
+	var seen1, seen2 []c.RecordedRequest
+	for _, rq := range backend.Take() {
+		if strings.HasPrefix(rq.URI, cs2.Path) {
+			seen2 = append(seen2, rq)
+		} else {
+			seen1 = append(seen1, rq)
+		}
+	}
+	return []c.Case{observe(w, cs1, sealed, st1, ck1, seen1), observe(w, cs2, sealed, st2, ck2, seen2)}
+}
+
+func sameSessionPairs(ws []*world, backend *c.Backend, r *c.Rng, n int) []c.Case {
+	var out []c.Case
+	pick := []int{0, 9, 11, 12, 8, 16}
+	for i := 0; i < n; i++ {
+		wi := pick[i%len(pick)]
+		if wi >= len(ws) {
+			wi = 0
+		}
+		w := ws[wi]
+		old := []string{"team", "eng"}
+		prof := []string{"team", "other"}
+		if len(w.Allowed) > 10 {
+			old, prof = w.Allowed[:12], w.Allowed[3:20]
+		} else if len(w.Allowed) == 2 {
+			old, prof = []string{"ops", "team"}, []string{"ops"}
+		}
+		base := caseSpec{Mode: "auth", Pass: !w.ConfigFlags,
+			Sess:    sessSpec{User: "erin", Email: "erin@corp.test", Groups: old, Token: "erin-old-token"},
+			Due:     []string{"refresh", "validate"}[i%2], NewToken: "erin-rotated", ProfileGroups: prof,
+			Headers: [][2]string{{"Cookie", "a=b; " + w.CookieName + "=" + placeholder}}}
+		out = append(out, runSameSession(ws, backend, wi, base, i, r)...)
+	}
+	return out
+}
+
 // overlapPairs: deterministic overlaps of two users' requests on the worlds with request signing
 func overlapPairs(ws []*world, backend *c.Backend, r *c.Rng, n int) []c.Case {
 	var signing []int
@@ -1361,6 +1476,7 @@ func main() {
 		nPairs = 40
 	}
 	cases = append(cases, overlapPairs(ws, backend, r, nPairs)...)
+	cases = append(cases, sameSessionPairs(ws, backend, r, nPairs*3/5)...)
 	for _, cs := range loadCorpusDir(a.Corpus) {
 		if cs.World >= 0 && cs.World < len(ws) {
 			cases = append(cases, run(ws, backend, cs, r))
